@@ -23,10 +23,13 @@ values = timex~type~value;…  (value `none` when the entry has no value key) -/
 namespace RTV.Drv
 open RTV.Py RTV.DtRes
 
-def drvUni : Uni where
+def drvUni0 : Uni where
   isSpace c := inRangesArr RTV.Gen.spaceRanges c
   isNumericCh c := inRangesArr RTV.Gen.DtMaps.numericRanges c
   digitVal c := (RTV.Gen.DtMaps.ndZeros.find? (fun z => z ≤ c && c ≤ z + 9)).map (fun z => c - z)
+
+-- the handlers below take the `Uni` (base tables + the `to_pm` variant chosen per operation by an op-name suffix `+w`)
+variable (drvUni : Uni)
 
 def parseDT (f : String) : DT :=
   match (f.splitOn ",").map parseNat with
@@ -120,13 +123,13 @@ def enTimeCfgPlain : TimeCfg := {
 
 def hM2T : Handler
   | ref :: fs =>
-    match parseTimeCall fs with
+    match parseTimeCall drvUni fs with
     | some (g, cfg) => showExcept showRes (matchToTime drvUni cfg g (parseDT ref))
     | none => "bad-op"
   | _ => "bad-op"
 
 def hWordHour : Handler
-  | [ref, src] => showOpt showRes (wordHourToTime enTimeCfgPlain (parseCps src) (parseDT ref))
+  | [ref, src] => showOpt showRes (wordHourToTime (enTimeCfgPlain drvUni) (parseCps src) (parseDT ref))
   | _ => "bad-op"
 
 def dateCfgOf (tag : String) : Option DateCfg :=
@@ -183,14 +186,14 @@ def hRDate : Handler
 
 def hRTime : Handler
   | ref :: fs =>
-    match parseTimeCall fs with
+    match parseTimeCall drvUni fs with
     | some (g, cfg) => showExcept showValues (resolveTime drvUni cfg g (parseDT ref))
     | none => "bad-op"
   | _ => "bad-op"
 
 def hRDt : Handler
   | tag :: ref :: y :: fy :: m :: d :: wy :: pm :: am :: fs =>
-    match dateCfgOf tag, parseTimeCall fs with
+    match dateCfgOf tag, parseTimeCall drvUni fs with
     | some dcfg, some (g, tcfg) =>
       showExcept showValues (resolveDateAtTime drvUni dcfg (parseDateGroups y fy m d) (parseInt wy) tcfg g
         (parseBool pm) (parseBool am) (parseDT ref))
@@ -228,24 +231,51 @@ def hTod : Handler
       else if kind == "parsed" then
         .parsed (toSlot .time { success := parseBool tOk, timex := parseCps tTimex, future := parseDT tFut, past := parseDT tFut })
       else .nothing
-    showExcept showRes (parseTimeOfToday drvUni enTodCfg t (if parseBool matched then some (parseCps ms) else none) (parseDT ref))
+    showExcept showRes (parseTimeOfToday drvUni (enTodCfg drvUni) t (if parseBool matched then some (parseCps ms) else none) (parseDT ref))
   | _ => "bad-op"
 
-def dispatchDtRes (op : String) (args : List String) : Option String :=
+def showPRes (r : PRes) : String :=
+  s!"{showBool r.success}|{showCps r.timex}|{showCps r.comment}|{r.startS}|{r.endS}"
+
+def showPValues : Option (List PValue) → String
+  | none => "none"
+  | some vs => ";".intercalate (vs.map fun v => s!"{showCps v.timex}~{showCps v.type}~{showCps v.start}~{showCps v.«end»}")
+
+/-- m2tp padded(1 = repaired zero-padded timex) ok1 timex1 comment1 future1 ok2 timex2 comment2 future2 -> pres (merge_two_time_points)
+    tpres ok timex comment startS endS -> pvalues (time-range resolution) -/
+def hM2TP : Handler
+  | [padded, ok1, tx1, c1, f1, ok2, tx2, c2, f2] =>
+    let mk (ok tx c f : String) : Slot :=
+      toSlot .time { success := parseBool ok, timex := parseCps tx, comment := parseCps c, future := parseDT f, past := parseDT f }
+    showExcept showPRes (mergeTwoTimePoints (mk ok1 tx1 c1 f1) (mk ok2 tx2 c2 f2) (parseBool padded))
+  | _ => "bad-op"
+
+def hTPRes : Handler
+  | [ok, tx, c, st, en] =>
+    showExcept showPValues (timeRangeResolution drvUni
+      { success := parseBool ok, timex := parseCps tx, comment := parseCps c, startS := parseNat st, endS := parseNat en })
+  | _ => "bad-op"
+
+def dispatchDtRes (op0 : String) (args : List String) : Option String :=
+  let wraps := op0.endsWith "+w"
+  let op := if wraps then (op0.dropEnd 2).toString else op0
+  let u : Uni := { drvUni0 with pmWraps := wraps }
   match op with
-  | "dt.tod" => some (hTod args)
-  | "dt.m2dzh" => some (hM2DZh args)
-  | "dt.zhtime" => some (hZhTime args)
-  | "dt.dtfmt" => some (hDtFmt args)
+  | "dt.m2tp" => some (hM2TP args)
+  | "dt.tpres" => some (hTPRes u args)
+  | "dt.tod" => some (hTod u args)
+  | "dt.m2dzh" => some (hM2DZh u args)
+  | "dt.zhtime" => some (hZhTime u args)
+  | "dt.dtfmt" => some (hDtFmt u args)
   | "dt.gendates" => some (hGenDates args)
-  | "dt.m2t" => some (hM2T args)
-  | "dt.wordhour" => some (hWordHour args)
-  | "dt.m2d" => some (hM2D args)
-  | "dt.res" => some (hRes args)
+  | "dt.m2t" => some (hM2T u args)
+  | "dt.wordhour" => some (hWordHour u args)
+  | "dt.m2d" => some (hM2D u args)
+  | "dt.res" => some (hRes u args)
   | "dt.merge" => some (hMerge args)
-  | "dt.rdate" => some (hRDate args)
-  | "dt.rtime" => some (hRTime args)
-  | "dt.rdt" => some (hRDt args)
+  | "dt.rdate" => some (hRDate u args)
+  | "dt.rtime" => some (hRTime u args)
+  | "dt.rdt" => some (hRDt u args)
   | _ => none
 
 end RTV.Drv
